@@ -60,6 +60,7 @@ func main() {
 	only := flag.String("stream", "", "restrict to one stream")
 	list := flag.Bool("list", false, "list streams")
 	boost := flag.Int("boost", 1, "multiply the number of generated cases (used when a tie is broken)")
+	inflight := flag.String("inflight", "", "directory for the per-worker files naming the case in execution (crash isolation)")
 	flag.Parse()
 
 	if *list {
@@ -72,7 +73,10 @@ func main() {
 	}
 	known, what := loadKnown(*knownPath)
 	rn := &core.Runner{DriverPath: *driver, ReplayDir: *replayDir, Seed: *seed, Tier: *tier,
-		Known: known, KnownWhat: what, CorpusDir: *corpus, Boost: *boost}
+		Known: known, KnownWhat: what, CorpusDir: *corpus, Boost: *boost, InflightDir: *inflight}
+	if *inflight != "" {
+		os.MkdirAll(*inflight, 0o755)
+	}
 	if *replay != "" {
 		all := map[string]core.Stream{}
 		for p, ss := range registry {
